@@ -1002,20 +1002,35 @@ PROPS = {
                                   "C02_alloc_points_match_step"]},
         n_quick=420, n_thorough=3000,
         gates=["prog=host_table_6", "prog=host_table_13", "prog=host_table_29", "sched=every", "sched=single", "sched=subset", "gc_case", "prog=closures", "prog=stdlib_object_keys",
-               "prog=inline_closure", "prog=overwrite_equal_keys"],
+               "prog=inline_closure", "prog=overwrite_equal_keys", "alloc_points.segments", "alloc_points.grow",
+               "alloc_points.observed.AObject", "alloc_points.observed.ASecond", "alloc_points.observed.AGrow"],
         rule="for each program of the library (see C05, plus key functions returning fresh objects): a baseline run, "
              "then runs with a collection forced at every allocation, at each single allocation index (quick: all "
              "when <= 16 allocations, else 16 sampled; thorough: all) and at random subsets; freed objects are "
              "quarantined and poisoned (verif-hooks), the heap is audited after every collection and at the end "
              "(every object reachable from value stack, globals, call-frame closures, open-upvalue list and "
              "guarded objects must be live), outcome and final globals (deep) must equal the baseline; collections "
-             "are also dumped as object graphs and compared with the collector model; non-trivial = the program "
-             "allocates; distinct = distinct case term",
+             "are also dumped as object graphs and compared with the collector model; allocation points "
+             "(alloc_points.segments, appended after the schedule cases, the same in both tiers): eight straight-line "
+             "programs (StringLiteral, InitTable, SetProperty with fresh / existing / equal keys incl. the growth of "
+             "the hash part at the 6th, 9th, 13th entry, AppendTable, NthRow, ForEach, Closure + RegisterUpvalue with "
+             "a new and an already open upvalue, FunctionPointer, NativeFunctionPointer, __to_array as a native call "
+             "and through a native function value) with a call of the native log1 as a mark between the "
+             "instructions of interest; every call of CaoLangAllocator::alloc is recorded (verif-hooks events), "
+             "classified by its layout (object header = AObject, character buffer or hash part of capacity 8 = "
+             "ASecond, larger hash part = AGrow) and attributed to the segment between two marks; the checker runs "
+             "Vm.v over the compiled program and compares per segment with map ap_kind (alloc_points ...) of the "
+             "dispatched instructions, equal after removing AGrow points that did not fire (AGrow is conditional in "
+             "the model); alloc_points.grow: the sizes and positions of the growth steps of one table against "
+             "capacity 8, then * 3 / 2 when count + 1 > 0.7 * capacity, independent of Vm.v; non-trivial = the "
+             "program allocates; distinct = distinct case term",
         trusted_base=COMMON_TB + [
             "modelled, not verified: RuntimeData::gc as mark + sweep over an abstract object graph (Gc.v)",
             "the verif-hooks in /repo: forced collections, quarantine + poisoning of freed objects, heap audit, "
             "heap dump (cfg feature, additive); the audit and the outcome comparison are computed natively by the "
-            "harness and reported through the checker as schedule cases"],
+            "harness and reported through the checker as schedule cases",
+            "allocation-point segments: the classification of an allocation call by its layout (harness), the "
+            "allocation events of the verif-hooks, and Vm.v itself (tied to the code by the VM correspondence stream)"],
         assumptions=[
             "that every temporary an instruction or native function holds is rooted at every allocation point "
             "(collections in the MIDDLE of an instruction) is checked by the schedules on the program library, not "
